@@ -13,6 +13,15 @@ trimesh.Trimesh(vertices, faces, process=False) on non-collinear lattice points,
 Trimesh properties and the free functions of trimesh.graph / trimesh.geometry with both graph
 engines, projects them to JSON and has TLC validate every record against the reference.
 Python computes no expected value.
+
+Families added by the coverage audit (see `extra_items`): the engine None and the documented
+options of connected_components (min_len, nodes = all / None / a subset) and of split
+(only_watertight=True, the default call) on every record; `dt:` faces handed over in other
+integer dtypes / containers / memory layouts; `empty` face arrays; `lift:` meshes whose referenced
+vertices have large indices (2^8 .. 2^17, recorded through the order-preserving relabelling onto
+0..nv-1); `free:` the free functions alone with indices around 2^31 .. 2^62 (the packed-row
+thresholds of grouping.hashable_rows); `hist:` a mesh whose queries were all read before its faces
+were replaced (assignment, update_faces) or that went through the constructor's process().
 """
 import itertools
 import json
@@ -27,7 +36,7 @@ from harness.common import (MachineryError, Verdict, import_trimesh, pmap, seed,
 
 PROP = "C05"
 CFG = "INIT Init\nNEXT Next\nINVARIANT Report\nINVARIANT RefSane\nCHECK_DEADLOCK FALSE\n"
-ENGINES = ("scipy", "networkx")
+ENGINES = ("scipy", "networkx", "auto")   # auto: engine=None
 MAXV = 14
 # one point per vertex index on the moment curve: no three collinear, so every face with
 # three distinct indices is a proper triangle; all coordinates are small exact integers
@@ -56,7 +65,7 @@ def ragged(seq):
     return [[int(x) for x in r] for r in seq]
 
 
-def decode_split(meshes, faces):
+def decode_split(meshes, faces, vid_of):
     """Sub-meshes -> lists of face ids of the parent.  Vertices are identified by their
     (unique) coordinates; a face of a part is matched to the lowest unused parent face with the
     same ordered index triple (identical parent faces are interchangeable), -1 if there is none."""
@@ -66,7 +75,7 @@ def decode_split(meshes, faces):
     pool = {k: v[::-1] for k, v in pool.items()}
     out = []
     for s in meshes:
-        vid = [COORD_KEY.get(tuple(v), -1) for v in np.asarray(s.vertices).tolist()]
+        vid = [vid_of(v) for v in np.asarray(s.vertices).tolist()]
         comp = []
         for f in np.asarray(s.faces).tolist():
             key = tuple(vid[j] for j in f)
@@ -75,16 +84,74 @@ def decode_split(meshes, faces):
     return out
 
 
+# how a face / edge array is handed to the library (the property quantifies over integer arrays)
+def _strided(a):
+    a = np.array(a, dtype=np.int64).reshape(len(a), -1)
+    big = np.zeros((a.shape[0], 2 * a.shape[1]), dtype=np.int64)
+    big[:, ::2] = a
+    return big[:, ::2]
+
+
+def _readonly(a):
+    a = np.array(a, dtype=np.int64)
+    a.setflags(write=False)
+    return a
+
+
+CONV = {
+    "int64": lambda a: np.array(a, dtype=np.int64),
+    "int8": lambda a: np.array(a, dtype=np.int8),
+    "uint8": lambda a: np.array(a, dtype=np.uint8),
+    "int16": lambda a: np.array(a, dtype=np.int16),
+    "uint16": lambda a: np.array(a, dtype=np.uint16),
+    "int32": lambda a: np.array(a, dtype=np.int32),
+    "uint32": lambda a: np.array(a, dtype=np.uint32),
+    "uint64": lambda a: np.array(a, dtype=np.uint64),
+    "list": lambda a: np.array(a, dtype=np.int64).tolist(),
+    "tuple": lambda a: tuple(tuple(r) for r in np.array(a, dtype=np.int64).tolist()),
+    "fortran": lambda a: np.asfortranarray(np.array(a, dtype=np.int64)),
+    "strided": _strided,
+    "readonly": _readonly,
+    "tracked": None,   # trimesh.caching.tracked_array, filled in by the worker
+}
+_BIG = {}
+
+
+def big_coords(n):
+    """moment-curve points for n vertices (exact in float64 up to n = 2^17; beyond that only the
+    first coordinate, which is what identifies a vertex, needs to be exact)"""
+    if n not in _BIG:
+        _BIG.clear()
+        t = np.arange(1, n + 1, dtype=np.float64)
+        _BIG[n] = np.column_stack([t, t * t, t * t * t])
+    return _BIG[n]
+
+
+def pick_options(k, n, nv):
+    """the (min_len, nodes) option pair of this record, and the node subsets"""
+    j = k + seed()
+    rs = np.random.RandomState(7919 * (j % 100003) + 13)
+    ml = (2, 3, 4, 1)[(j // 3) % 4]
+    mode = ("all", "none", "sub")[j % 3]
+    fn = [int(x) for x in rs.permutation(n)[:max(1, rs.randint(1, n + 1))]] if n else []
+    vn = [int(x) for x in rs.permutation(nv)[:max(1, rs.randint(1, nv + 1))]] if nv else []
+    return ml, mode, fn, vn
+
+
 def observe(trimesh, item, k):
-    faces, nv, tag, claim = item
-    faces = [list(faces[j:j + 3]) for j in range(0, len(faces), 3)]
-    n = len(faces)
-    F = np.array(faces, dtype=np.int64).reshape(-1, 3)
-    rec = {"faces": faces, "nv": nv, "tag": tag, "claim": claim, "exc": ""}
+    flat, nv, tag, claim, opt = item
+    if opt.get("free"):
+        return observe_free(trimesh, item, k)
+    faces = [list(flat[j:j + 3]) for j in range(0, len(flat), 3)]
     g, geo = trimesh.graph, trimesh.geometry
-    m = trimesh.Trimesh(vertices=COORDS[:nv].copy(), faces=F.copy(), process=False)
-    if np.asarray(m.faces).tolist() != faces or len(m.vertices) != nv:
-        raise MachineryError(f"Trimesh(process=False) did not keep the input arrays: {faces} {nv}")
+    cname = opt.get("conv", "int64")
+    conv0 = CONV[cname] or (lambda a: trimesh.caching.tracked_array(np.array(a, dtype=np.int64)))
+    # an empty (0, k) array keeps its shape (a list cannot carry it)
+    conv = lambda a: conv0(a) if np.asarray(a).size else np.array(a, dtype=np.int64)
+    arr = (lambda a: conv(a)) if cname not in ("list", "tuple") else (lambda a: np.array(a, dtype=np.int64))
+    lift = opt.get("lift")
+    rec = {"kind": "mesh", "tag": tag, "claim": claim, "exc": "", "bcx": 0, "stray": 0,
+           "src": {"flat": [int(x) for x in flat], "nv": int(nv), "opt": opt, "k": int(k)}}
     cur = ["?"]
 
     def rd(name, thunk):
@@ -92,56 +159,142 @@ def observe(trimesh, item, k):
         return thunk()
 
     try:
+        # ------------------------------------------------------------ the object under test
+        if lift is not None:
+            L = np.array(lift, dtype=np.int64)
+            nvreal = int(opt["nvbig"])
+            verts = big_coords(nvreal)
+            inv = {int(b): j for j, b in enumerate(L.tolist())}
+            vid_of = lambda v: inv.get(int(v[0]) - 1, -7)
+            rec["bcx"] = nvreal - nv
+        else:
+            L = np.arange(nv, dtype=np.int64)
+            nvreal = nv
+            verts = COORDS[:nv]
+            inv = None
+            vid_of = lambda v: COORD_KEY.get(tuple(v), -7)
+        F = L[np.array(faces, dtype=np.int64).reshape(-1, 3)]
+
+        def ul(a):     # vertex ids of the real mesh -> labels of the record (-1 is padding)
+            a = np.asarray(a)
+            if a.size and a.dtype.kind not in "iub":
+                raise TypeError("not integral")
+            if inv is None:
+                return a
+            return np.array([x if x == -1 else inv.get(x, -7) for x in a.reshape(-1).tolist()],
+                            dtype=np.int64).reshape(a.shape)
+
+        hist = opt.get("hist")
+        if hist and hist[0] == "process":
+            # the constructor's default: merge_vertices() and friends run first
+            m = rd("Trimesh()", lambda: trimesh.Trimesh(vertices=verts.copy(), faces=conv(F)))
+            faces = np.asarray(m.faces).tolist()
+            nv = nvreal = len(m.vertices)
+            F = np.array(faces, dtype=np.int64).reshape(-1, 3)
+            L = np.arange(nv, dtype=np.int64)
+            key = {tuple(v): j for j, v in enumerate(np.asarray(m.vertices).tolist())}
+            vid_of = lambda v: key.get(tuple(v), -7)
+        elif hist:
+            # every query is read on other faces first, then the faces are replaced
+            F1 = np.array(hist[1], dtype=np.int64).reshape(-1, 3)
+            m = trimesh.Trimesh(vertices=verts.copy(), faces=F1.copy(), process=False)
+            for name in WARM:
+                rd("warm:" + name, lambda: getattr(m, name))
+            rd("warm:split", lambda: m.split(only_watertight=False, repair=False))
+            if hist[0] == "assign":
+                cur[0] = "faces="
+                m.faces = conv(F)
+            else:
+                rd("update_faces", lambda: m.update_faces(np.array(hist[2], dtype=bool)))
+        else:
+            m = rd("Trimesh", lambda: trimesh.Trimesh(vertices=verts.copy(), faces=conv(F), process=False))
+        if np.asarray(m.faces).tolist() != F.tolist() or len(m.vertices) != nvreal:
+            raise MachineryError(f"the mesh under test does not hold the intended arrays: {tag} {faces} {nv}")
+        n = len(faces)
+        rec["faces"], rec["nv"] = faces, nv
+        sel = L.tolist()       # rows of per-vertex results that belong to the record's labels
+
         first = k % 2 == 0  # read the by-product before / after the value that computes it
         if first:
             rec["ef"] = rd("edges_face", lambda: ints(m.edges_face))
             rec["eui"] = rd("edges_unique_inverse", lambda: ints(m.edges_unique_inverse))
-            rec["fae"] = rd("face_adjacency_edges", lambda: rows(m.face_adjacency_edges, 2))
+            rec["fae"] = rd("face_adjacency_edges", lambda: rows(ul(m.face_adjacency_edges), 2))
             rec["wc"] = rd("is_winding_consistent", lambda: bool(m.is_winding_consistent))
-        rec["edges"] = rd("edges", lambda: rows(m.edges, 2))
-        rec["es"] = rd("edges_sorted", lambda: rows(m.edges_sorted, 2))
-        rec["eu"] = rd("edges_unique", lambda: rows(m.edges_unique, 2))
+        rec["edges"] = rd("edges", lambda: rows(ul(m.edges), 2))
+        rec["es"] = rd("edges_sorted", lambda: rows(ul(m.edges_sorted), 2))
+        rec["eu"] = rd("edges_unique", lambda: rows(ul(m.edges_unique), 2))
         rec["fue"] = rd("faces_unique_edges", lambda: rows(m.faces_unique_edges, 3))
         rec["fa"] = rd("face_adjacency", lambda: rows(m.face_adjacency, 2))
-        rec["fau"] = rd("face_adjacency_unshared", lambda: rows(m.face_adjacency_unshared, 2))
+        rec["fau"] = rd("face_adjacency_unshared", lambda: rows(ul(m.face_adjacency_unshared), 2))
         rec["wt"] = rd("is_watertight", lambda: bool(m.is_watertight))
         if not first:
             rec["ef"] = rd("edges_face", lambda: ints(m.edges_face))
             rec["eui"] = rd("edges_unique_inverse", lambda: ints(m.edges_unique_inverse))
-            rec["fae"] = rd("face_adjacency_edges", lambda: rows(m.face_adjacency_edges, 2))
+            rec["fae"] = rd("face_adjacency_edges", lambda: rows(ul(m.face_adjacency_edges), 2))
             rec["wc"] = rd("is_winding_consistent", lambda: bool(m.is_winding_consistent))
-        rec["vn"] = rd("vertex_neighbors", lambda: ragged(m.vertex_neighbors))
-        rec["vf"] = rd("vertex_faces", lambda: ragged(np.asarray(m.vertex_faces).tolist()))
-        rec["vd"] = rd("vertex_degree", lambda: ints(m.vertex_degree))
+        vn = rd("vertex_neighbors", lambda: m.vertex_neighbors)
+        vf = rd("vertex_faces", lambda: np.asarray(m.vertex_faces))
+        vd = rd("vertex_degree", lambda: np.asarray(m.vertex_degree))
+        if len(vn) != nvreal or len(vf) != nvreal or len(vd) != nvreal:
+            raise ValueError("per-vertex shape")
+        rec["vn"] = rd("vertex_neighbors", lambda: ragged(ul(vn[j]).tolist() for j in sel))
+        rec["vf"] = rd("vertex_faces", lambda: ragged(vf[sel].tolist()))
+        rec["vd"] = rd("vertex_degree", lambda: ints(vd[sel]))
+        if lift is not None:
+            out = np.ones(nvreal, dtype=bool)
+            out[L] = False
+            rec["stray"] = int(sum(1 for j in np.nonzero(out)[0].tolist() if len(vn[j])) +
+                               np.count_nonzero((vf[out] != -1).any(axis=1)) + np.count_nonzero(vd[out]))
         rec["bc"] = rd("body_count", lambda: int(m.body_count))
         rec["eul"] = rd("euler_number", lambda: int(m.euler_number))
-        rec["split"] = rd("split", lambda: decode_split(m.split(only_watertight=False, repair=False), faces))
-        rec["vag"] = rd("vertex_adjacency_graph", lambda: [[int(a), int(b)] for a, b in g.vertex_adjacency_graph(m).edges()])
+        rec["split"] = rd("split", lambda: decode_split(m.split(only_watertight=False, repair=False), faces, vid_of))
+        rec["vag"] = rd("vertex_adjacency_graph", lambda: [[int(a), int(b)] for a, b in ul(np.array(
+            list(g.vertex_adjacency_graph(m).edges()), dtype=np.int64).reshape(-1, 2)).tolist()])
+        sp = rd("faces_sparse", lambda: m.faces_sparse.tocoo())
+        rec["fsp"] = rd("faces_sparse", lambda: sorted(set(zip(ul(sp.row).tolist(), ints(sp.col)))))
         # free functions
-        e2, i2 = rd("faces_to_edges", lambda: geo.faces_to_edges(F.copy(), return_index=True))
-        rec["f2e"], rec["f2ei"] = rows(e2, 2), ints(i2)
-        a2, ae2 = rd("graph.face_adjacency", lambda: g.face_adjacency(faces=F.copy(), return_edges=True))
-        rec["gfa"], rec["gfae"] = rows(a2, 2), rows(ae2, 2)
+        e2, i2 = rd("faces_to_edges", lambda: geo.faces_to_edges(conv(F), return_index=True))
+        rec["f2e"], rec["f2ei"] = rows(ul(e2), 2), ints(i2)
+        rec["f2e0"] = rd("faces_to_edges_noindex", lambda: rows(ul(geo.faces_to_edges(conv(F))), 2))
+        a2, ae2 = rd("graph.face_adjacency", lambda: g.face_adjacency(faces=conv(F), return_edges=True))
+        rec["gfa"], rec["gfae"] = rows(a2, 2), rows(ul(ae2), 2)
         rec["gfam"] = rd("graph.face_adjacency_m", lambda: rows(g.face_adjacency(mesh=m), 2))
-        rec["vfi"] = rd("vertex_face_indices", lambda: ragged(np.asarray(
-            geo.vertex_face_indices(nv, F.copy(), m.faces_sparse)).tolist()))
+        rec["vfi"] = rd("vertex_face_indices", lambda: ragged(np.asarray(geo.vertex_face_indices(
+            nvreal, arr(F), geo.index_sparse(nvreal, conv(F)) if k % 3 == 0 else m.faces_sparse))[sel].tolist()))
+        rec["cut"] = n // 2
+        rec["she"] = rd("shared_edges", lambda: rows(ul(g.shared_edges(conv(F[:n // 2]), conv(F[n // 2:]))), 2)) \
+            if n >= 2 else []
         adj = np.asarray(m.face_adjacency).reshape(-1, 2)
         vedges = np.asarray(m.edges if first else m.edges_unique).reshape(-1, 2)
-        rec["cc"], rec["vcc"], rec["gsplit"] = {}, {}, {}
+        ml, mode, fnodes, vnodes = pick_options(k, n, nv)
+        rec["cc"], rec["vcc"], rec["gsplit"], rec["wsplit"] = {}, {}, {}, {}
+        rec["ccx"] = {"ml": ml, "mode": mode, "fnodes": fnodes, "vnodes": vnodes, "f": {}, "v": {}}
+        fN = {"all": np.arange(n), "none": None, "sub": np.array(fnodes, dtype=np.int64)}[mode]
+        vN = {"all": L.copy(), "none": None, "sub": L[np.array(vnodes, dtype=np.int64)]}[mode]
         for e in ENGINES:
+            en = None if e == "auto" else e
             rec["cc"][e] = rd("components_f:" + e, lambda: ragged(
-                g.connected_components(adj.copy(), nodes=np.arange(n), min_len=1, engine=e)))
-            rec["vcc"][e] = rd("components_v:" + e, lambda: ragged(
-                g.connected_components(vedges.copy(), nodes=np.arange(nv), engine=e)))
+                g.connected_components(conv(adj), nodes=np.arange(n), min_len=1, engine=en)))
+            rec["vcc"][e] = rd("components_v:" + e, lambda: ragged(ul(np.asarray(c)).tolist() for c in
+                g.connected_components(conv(vedges), nodes=L.copy(), engine=en)))
             rec["gsplit"][e] = rd("graph.split:" + e, lambda: decode_split(
-                g.split(m, only_watertight=False, engine=e, repair=False), faces))
-        rec["ccl"] = rd("component_labels_f", lambda: ints(g.connected_component_labels(adj.copy(), node_count=n)))
-        rec["vccl"] = rd("component_labels_v", lambda: ints(g.connected_component_labels(vedges.copy(), node_count=nv)))
-        w = rd("graph.is_watertight", lambda: g.is_watertight(np.asarray(m.edges).copy(), np.asarray(m.edges_sorted).copy())
-               if first else g.is_watertight(np.asarray(m.edges).copy()))
+                g.split(m, only_watertight=False, engine=en, repair=False), faces, vid_of))
+            rec["ccx"]["f"][e] = rd(f"components_f:{e}:{ml}:{mode}", lambda: ragged(
+                g.connected_components(conv(adj), nodes=fN, min_len=ml, engine=en)))
+            rec["ccx"]["v"][e] = rd(f"components_v:{e}:{ml}:{mode}", lambda: ragged(ul(np.asarray(c)).tolist() for c in
+                g.connected_components(conv(vedges), nodes=vN, min_len=ml, engine=en)))
+            rec["wsplit"][e] = rd("split_watertight:" + e, lambda: decode_split(
+                g.split(m, only_watertight=True, engine=en), faces, vid_of))
+        rec["wsplit"]["dflt"] = rd("split()", lambda: decode_split(m.split(), faces, vid_of))
+        rec["ccl"] = rd("component_labels_f", lambda: ints(g.connected_component_labels(conv(adj), node_count=n))
+                        if n else [])
+        rec["vccl"] = rd("component_labels_v", lambda: ints(np.asarray(
+            g.connected_component_labels(conv(vedges), node_count=nvreal))[sel]))
+        w = rd("graph.is_watertight", lambda: g.is_watertight(arr(np.asarray(m.edges)), arr(np.asarray(m.edges_sorted)))
+               if first else g.is_watertight(arr(np.asarray(m.edges))))
         rec["gwt"], rec["gwc"] = bool(w[0]), bool(w[1])
         # angle defects: only where every face is a proper triangle
-        rec["hasdefect"] = all(len(set(f)) == 3 for f in faces)
+        rec["hasdefect"] = bool(lift is None and n > 0 and all(len(set(f)) == 3 for f in faces))
         rec["defect"] = 0
         if rec["hasdefect"]:
             tot = rd("vertex_defects", lambda: float(np.sum(m.vertex_defects)))
@@ -150,6 +303,59 @@ def observe(trimesh, item, k):
             rec["defect"] = int(round(tot / (2.0 * np.pi) * 1e6))
     except MachineryError:
         raise
+    except BaseException as e:  # noqa
+        rec["exc"] = f"{cur[0]}:{type(e).__name__}"[:44]
+        rec.setdefault("faces", faces)
+        rec.setdefault("nv", nv)
+    return rec
+
+
+WARM = ("edges", "edges_sorted", "edges_unique", "edges_unique_inverse", "edges_face", "faces_unique_edges",
+        "face_adjacency", "face_adjacency_edges", "face_adjacency_unshared", "is_watertight",
+        "is_winding_consistent", "vertex_neighbors", "vertex_faces", "vertex_degree", "body_count",
+        "euler_number", "vertex_adjacency_graph", "faces_sparse", "edges_sparse", "referenced_vertices")
+
+
+def observe_free(trimesh, item, k):
+    """free functions of trimesh.graph / trimesh.geometry on faces whose vertex indices are far
+    beyond any vertex array; results come back through the inverse of the relabelling"""
+    flat, nv, tag, claim, opt = item
+    faces = [list(flat[j:j + 3]) for j in range(0, len(flat), 3)]
+    g, geo = trimesh.graph, trimesh.geometry
+    L = np.array(opt["lift"], dtype=np.int64)
+    inv = {int(b): j for j, b in enumerate(L.tolist())}
+    n = len(faces)
+    F = L[np.array(faces, dtype=np.int64).reshape(-1, 3)]
+    rec = {"kind": "free", "tag": tag, "claim": 0, "exc": "", "faces": faces, "nv": nv, "cut": n // 2,
+           "hascc": bool(opt["cc"]), "src": {"flat": [int(x) for x in flat], "nv": int(nv), "opt": opt, "k": int(k)}}
+    cur = ["?"]
+
+    def rd(name, thunk):
+        cur[0] = name
+        return thunk()
+
+    def ul(a):
+        a = np.asarray(a)
+        if a.size and a.dtype.kind not in "iub":
+            raise TypeError("not integral")
+        return np.array([inv.get(x, -7) for x in a.reshape(-1).tolist()], dtype=np.int64).reshape(a.shape)
+
+    try:
+        e2, i2 = rd("faces_to_edges", lambda: geo.faces_to_edges(F.copy(), return_index=True))
+        rec["f2e"], rec["f2ei"] = rows(ul(e2), 2), ints(i2)
+        rec["f2e0"] = rd("faces_to_edges_noindex", lambda: rows(ul(geo.faces_to_edges(F.copy())), 2))
+        a2, ae2 = rd("graph.face_adjacency", lambda: g.face_adjacency(faces=F.copy(), return_edges=True))
+        rec["gfa"], rec["gfae"] = rows(a2, 2), rows(ul(ae2), 2)
+        E = np.asarray(e2)
+        w = rd("graph.is_watertight", lambda: g.is_watertight(E.copy()) if k % 2 else
+               g.is_watertight(E.copy(), np.sort(E, axis=1)))
+        rec["gwt"], rec["gwc"] = bool(w[0]), bool(w[1])
+        rec["she"] = rd("shared_edges", lambda: rows(ul(g.shared_edges(F[:n // 2].copy(), F[n // 2:].copy())), 2)) \
+            if n >= 2 else []
+        rec["cc"] = {}
+        for e in ENGINES:
+            rec["cc"][e] = rd("components_v:" + e, lambda: ragged(ul(np.asarray(c)).tolist() for c in
+                g.connected_components(E.copy(), engine=None if e == "auto" else e))) if opt["cc"] else []
     except BaseException as e:  # noqa
         rec["exc"] = f"{cur[0]}:{type(e).__name__}"[:44]
     return rec
@@ -301,6 +507,103 @@ def variants(rs, per):
             yield (flat, nv, "lib:" + name + ":" + "+".join(ops or ["base"]), claim)
 
 
+DTYPES = ("int8", "uint8", "int16", "uint16", "int32", "uint32", "uint64", "list", "tuple", "fortran",
+          "strided", "readonly", "tracked")
+
+
+def lift_labels(rs, V, s):
+    """V strictly increasing vertex indices around 2^s: the patterns on which a packed row key
+    (grouping.hashable_rows) or a narrow intermediate dtype would collide or wrap"""
+    top = 2 ** s
+    kind = rs.randint(4)
+    if kind == 0:
+        h = max(1, V // 2)
+        ids = list(range(h)) + [top + j for j in range(V - h)]
+    elif kind == 1:
+        ids = sorted(int(x) for x in top - 6 + rs.choice(12, V, replace=False))
+    elif kind == 2:
+        step = max(1, top // 8)
+        ids = sorted({int(x) * step + int(rs.randint(2)) for x in rs.choice(12, V, replace=False)})
+        while len(ids) < V:
+            ids.append(ids[-1] + 1)
+    else:
+        ids = sorted(int(x) for x in set(rs.randint(0, top + 100, size=4 * V).tolist()))[:V]
+        while len(ids) < V:
+            ids.append(ids[-1] + 1)
+    return [int(x) for x in ids]
+
+
+def bait(rs, s):
+    """edges that differ only across bit s: (0, T+2) / (T, T+3) collide under a key a ^ (b << s),
+    (0, T+2) / (1, 2) under a key a * 2^s + b; the three faces carrying them are not adjacent"""
+    top = 2 ** s
+    V = 7 + int(rs.randint(2))
+    ids = [0, 1, 2] + [top + j for j in range(V - 3)]
+    faces = [[0, 5, int(rs.randint(V))], [1, 2, int(rs.randint(V))], [3, 6, int(rs.randint(V))]]
+    faces = [f[r:] + f[:r] if rs.rand() < 0.5 else (f[r:] + f[:r])[::-1] for f, r in zip(faces, rs.randint(3, size=3))]
+    faces += grown(rs, int(rs.randint(0, 4)), V)
+    faces = [faces[q] for q in rs.permutation(len(faces))]
+    return tuple(int(x) for f in faces for x in f), V, ids
+
+
+def extra_items(tier, rs):
+    """the families added by the coverage audit (module docstring)"""
+    big = tier == "thorough"
+    lib = library()
+    out = []
+    # faces handed over in another integer dtype / container / memory layout
+    for cn in DTYPES:
+        for flat, nv, _t, _c in sampled(40 if big else 9, (2, 3, 4, 5), (4, 5, 6), rs):
+            out.append((flat, nv, "dt:" + cn, 0, {"conv": cn}))
+        for name in ("cube", "tetrahedra_sharing_edge", "pillow"):
+            base, nv0, closed = lib[name]
+            out.append((tuple(x for f in base for x in f), nv0, "dt:" + cn, 1 if closed else 2, {"conv": cn}))
+    # no faces at all
+    for nv in (1, 2, 3, 5, 9):
+        out.append(((), nv, "empty", 0, {}))
+    # meshes whose referenced vertices have large indices
+    for s, cnt in ((8, 40), (12, 30), (15, 20), (16, 30), (17, 8)):
+        for j, (flat, V, _t, _c) in enumerate(sampled(cnt * (10 if big else 1), (2, 3, 4, 5, 6), (4, 5, 6, 7, 8), rs)):
+            if j % 3 == 2:
+                flat, V, ids = bait(rs, s)
+            else:
+                ids = lift_labels(rs, V, s)
+            out.append((flat, V, f"lift:2^{s}", 0, {"lift": ids, "nvbig": ids[-1] + 1 + int(rs.randint(3))}))
+    # free functions alone, indices beyond any mesh
+    for s, cnt in ((16, 30), (21, 30), (31, 60), (32, 50), (33, 30), (40, 30), (62, 40)):
+        for j, (flat, V, _t, _c) in enumerate(sampled(cnt * (8 if big else 1), (1, 2, 3, 4, 5, 6), (4, 5, 6, 7, 8), rs)):
+            if j % 3 == 2:
+                flat, V, ids = bait(rs, s)
+            else:
+                ids = lift_labels(rs, V, s)
+            out.append((flat, V, f"free:2^{s}", 0, {"free": 1, "lift": ids, "cc": int(s <= 21)}))
+    # queries read before the faces were replaced; the constructor's default processing
+    for j, (flat, nv, _t, _c) in enumerate(sampled(1500 if big else 180, (2, 3, 4, 5), (4, 5, 6), rs)):
+        how = ("assign", "update", "process")[j % 3]
+        n = len(flat) // 3
+        if how == "assign":
+            other = rs.randint(max(flat) + 1, size=3 * int(rs.randint(1, 6)))
+            opt = {"hist": ["assign", [int(x) for x in other]]}
+        elif how == "update":
+            keep = [True] * n + [False] * int(rs.randint(1, 4))
+            keep = [keep[q] for q in rs.permutation(len(keep))]
+            f1, q = [], 0
+            for kp in keep:
+                if kp:
+                    f1 += [int(x) for x in flat[3 * q:3 * q + 3]]
+                    q += 1
+                else:
+                    f1 += [int(x) for x in rs.randint(max(flat) + 1, size=3)]
+            opt = {"hist": ["update", f1, keep]}
+        else:
+            opt = {"hist": ["process"]}
+        out.append((flat, nv, "hist:" + how, 0, opt))
+    return out
+
+
+FAMILY_MIN = {"dt": 140, "empty": 5, "lift": 100, "free": 250, "hist": 150}
+
+
 def work_items(tier):
     rs = np.random.RandomState(seed() + 505)
     if tier == "thorough":
@@ -311,6 +614,8 @@ def work_items(tier):
         items = list(exhaustive(2))
         items += list(sampled(4500, (3, 4), (4, 5, 6), rs))
         items += list(variants(rs, 16))
+    items = [it + ({},) for it in items]
+    items += extra_items(tier, np.random.RandomState(seed() + 50505))
     return items
 
 
@@ -318,8 +623,18 @@ def input_stats(cases):
     st = {"degenerate_face": 0, "repeated_face": 0, "edge_three_or_more_times": 0, "unreferenced_vertex": 0,
           "watertight_observed": 0, "winding_inconsistent_observed": 0, "adjacent_pairs_observed": 0,
           "several_face_components_observed": 0, "several_bodies_observed": 0,
-          "defect_clause_on_labelled_closed_manifold": 0}
+          "defect_clause_on_labelled_closed_manifold": 0,
+          "min_len_left_a_component_out": 0, "nodes_none": 0, "nodes_subset": 0,
+          "only_watertight_returned_a_part": 0, "only_watertight_repaired_a_part": 0,
+          "only_watertight_left_a_component_out": 0, "vertex_index_65536_or_more": 0,
+          "vertex_index_2_31_or_more": 0, "free_with_components": 0}
     for c in cases:
+        top = max(c["src"]["opt"].get("lift") or [0])
+        st["vertex_index_65536_or_more"] += bool(top >= 65536 and c["kind"] == "mesh")
+        st["vertex_index_2_31_or_more"] += top >= 2 ** 31
+        if c["kind"] == "free":
+            st["free_with_components"] += bool(c["hascc"] and c["exc"] == "")
+            continue
         fs = c["faces"]
         cnt = {}
         for f in fs:
@@ -337,6 +652,14 @@ def input_stats(cases):
             st["several_face_components_observed"] += len(c["split"]) > 1
             st["several_bodies_observed"] += c["bc"] > 1
             st["defect_clause_on_labelled_closed_manifold"] += bool(c["hasdefect"] and c["claim"] == 1)
+            x = c["ccx"]
+            st["min_len_left_a_component_out"] += bool(x["mode"] == "all" and len(x["f"]["scipy"]) < len(c["cc"]["scipy"]))
+            st["nodes_none"] += x["mode"] == "none"
+            st["nodes_subset"] += x["mode"] == "sub"
+            w = c["wsplit"]["scipy"]
+            st["only_watertight_returned_a_part"] += len(w) > 0
+            st["only_watertight_repaired_a_part"] += any(-1 in part for part in w)
+            st["only_watertight_left_a_component_out"] += len(w) < len(c["split"])
     return {k: int(v) for k, v in st.items()}
 
 
@@ -363,13 +686,15 @@ def main(argv):
     check_clause_names()
     if "--replay" in argv:
         rp = json.load(open(argv[argv.index("--replay") + 1]))
-        items = [(tuple(x for f in v["detail"]["faces"] for x in f), v["detail"]["nv"], "replay", 0)
-                 for v in rp["violations"]]
+        # the record number decides the order of reads and the option pair: keep it
+        items = sorted({v["detail"]["src"]["k"]: (tuple(v["detail"]["src"]["flat"]), v["detail"]["src"]["nv"], "replay", 0,
+                                                  v["detail"]["src"]["opt"]) for v in rp["violations"]}.items())
     else:
         items = work_items(tier)
     if len(items) < 1 or ("--replay" not in argv and len(items) < 3000):
         raise MachineryError("too few inputs enumerated")
-    items = list(enumerate(items))
+    if "--replay" not in argv:
+        items = list(enumerate(items))
     round_size = 48000
     states = 0
     wall = 0.0
@@ -396,16 +721,30 @@ def main(argv):
             nrej += 1
             V.violation(clause, {k: v for k, v in c.items() if k != "id"})
         for c in cases:
-            t = c["tag"].split(":")[0] if not c["tag"].startswith("lib:") else "lib:" + c["tag"].split(":")[1]
+            t = c["tag"].split(":")[0] if c["tag"].startswith("rnd") or ":" not in c["tag"] \
+                else ":".join(c["tag"].split(":")[:2])
             bytag[t] = bytag.get(t, 0) + 1
         for k, v in input_stats(cases).items():
             stats[k] = stats.get(k, 0) + v
         samples += [cases[len(cases) // 3], cases[-1]]
+    if "--replay" not in argv:
+        # the audit families must all be there, whatever the verdict
+        fam = {}
+        for t, cnt in bytag.items():
+            fam[t.split(":")[0]] = fam.get(t.split(":")[0], 0) + cnt
+        short = {f: fam.get(f, 0) for f, lo in FAMILY_MIN.items() if fam.get(f, 0) < lo}
+        short.update({"dt:" + cn: bytag.get("dt:" + cn, 0) for cn in DTYPES if bytag.get("dt:" + cn, 0) < 8})
+        if short or stats["vertex_index_65536_or_more"] < 20 or stats["vertex_index_2_31_or_more"] < 150:
+            raise MachineryError(f"a family of the enumeration came out nearly empty: {short} {stats}")
     if "--replay" not in argv and not V.violations:
         # nothing was rejected, so the recorded values are the reference's: make sure the
         # interesting situations were really met
         if stats["defect_clause_on_labelled_closed_manifold"] < 10 or stats["watertight_observed"] < 10 \
-                or stats["adjacent_pairs_observed"] < 100 or stats["edge_three_or_more_times"] < 100:
+                or stats["adjacent_pairs_observed"] < 100 or stats["edge_three_or_more_times"] < 100 \
+                or stats["min_len_left_a_component_out"] < 200 or stats["nodes_none"] < 500 \
+                or stats["nodes_subset"] < 500 or stats["only_watertight_returned_a_part"] < 50 \
+                or stats["only_watertight_repaired_a_part"] < 5 or stats["only_watertight_left_a_component_out"] < 500 \
+                or stats["free_with_components"] < 40:
             raise MachineryError(f"enumeration nearly empty: {stats}")
     cov = {
         "states": states, "transitions": states,
@@ -422,7 +761,15 @@ def main(argv):
         "growth along shared edges and a library of closed / non-manifold surfaces with flipped, repeated, removed and "
         "collapsed faces",
         "queries read on a fresh Trimesh(process=False); staleness after mutation is property C01",
-        "split read with repair=False (hole filling is a documented extra of submesh, not a connectivity query)",
+        "split(only_watertight=False) read with repair=False (hole filling is a documented extra of submesh, not a "
+        "connectivity query); split(only_watertight=True) and the default split(): parts are whole components, an "
+        "unrepaired part is watertight, every watertight component of >= 4 faces is returned, same answer for every "
+        "engine; repaired parts and smaller components are not constrained",
+        "a face with a repeated index counts once per face or once per corner at that vertex (both are direct counting), "
+        "but vertex_faces, vertex_face_indices and vertex_degree must follow the same one of the two",
+        "connected_components with min_len 1-4 and nodes = all / None / a random subset, engines scipy, networkx and None",
+        "other integer dtypes / containers, empty face arrays, vertex indices up to 2^17 in meshes and up to 2^62 in the "
+        "free functions (recorded through the order-preserving relabelling), queries read before the faces were replaced",
         "angle defects in fixed point: round(sum/2pi*1e6) within 5 units, vertices on the moment curve (no collinear triple)",
     ])
 
